@@ -66,13 +66,33 @@ def check_writer_dispatch(ctx):
       continue
     ctx.check(dsp.handled(ix, k, tested) is not None, "DSP-writer", key, ctx.where(f.module, f.node), "has a branch",
               f"ContentElement.from_model has no branch for model.{k.name}: such elements are silently left out of the IMSC output")
-  # the branch maps to the matching imsc class
+  # the branch maps to the matching imsc class (if-chain, or rows of a constant table unpacked by a loop)
   for n in own_nodes(f.node):
     if isinstance(n, ast.If) and isinstance(n.test, ast.Call) and unparse(n.test.func) == "isinstance" and n.body and isinstance(n.body[0], ast.Assign):
-      kind = unparse(n.test.args[1]).split(".")[-1]
-      tgt = unparse(n.body[0].value)
-      ctx.check(tgt == f"{kind}Element", "DSP-writer", f"{f.qualname}|{kind} -> {tgt}", ctx.where(f.module, n), "maps to its own element class",
-                f"model.{kind} is written with {tgt} instead of {kind}Element")
+      karg, varg = n.test.args[1], n.body[0].value
+      pairs = None
+      if isinstance(karg, ast.Name) and isinstance(varg, ast.Name):
+        pairs = _table_pairs(ix, f, n, karg.id, varg.id)
+      if pairs is None:
+        pairs = [(unparse(karg).split(".")[-1], unparse(varg))]
+      for kind, tgt in pairs:
+        ctx.check(tgt == f"{kind}Element", "DSP-writer", f"{f.qualname}|{kind} -> {tgt}", ctx.where(f.module, n), "maps to its own element class",
+                  f"model.{kind} is written with {tgt} instead of {kind}Element")
+
+
+def _table_pairs(ix, f, node, kvar, vvar):
+  """[(model class name, element class text)] when kvar / vvar are columns of a constant table of rows iterated by an enclosing loop"""
+  from ..core import ancestors
+  for a in ancestors(node):
+    if isinstance(a, ast.For) and isinstance(a.target, (ast.Tuple, ast.List)):
+      names = [t.id if isinstance(t, ast.Name) else None for t in a.target.elts]
+      if kvar in names and vvar in names:
+        r = ix.resolve(f.module, a.iter, cls=f.cls, func=f) if isinstance(a.iter, (ast.Name, ast.Attribute)) else None
+        table = r[2] if isinstance(r, tuple) and r[0] == "assign" else (a.iter if isinstance(a.iter, (ast.Tuple, ast.List)) else None)
+        if isinstance(table, (ast.Tuple, ast.List)) and all(isinstance(row, (ast.Tuple, ast.List)) and len(row.elts) == len(names) for row in table.elts):
+          return [(unparse(row.elts[names.index(kvar)]).split(".")[-1], unparse(row.elts[names.index(vvar)])) for row in table.elts]
+        raise AnalysisError(f"{f.qualname}: the dispatch table iterated by `{short(a, 50)}` is not a constant table of rows")
+  return None
 
 
 def check_props(ctx):
@@ -268,10 +288,72 @@ def check_time_formats(ctx):
       want = [vals["self._hours"], vals["self._minutes"], vals["self._seconds"], vals["self._frames"]]
       ctx.check(got == want, "FMT-time", f"{f.qualname}|clock_time_with_frames|{text}", ctx.where(tc.module, tc.node), f"`{text}` read back as {got}",
                 f"the writer prints `{text}` for clock_time_with_frames but the reader recovers {got} instead of {want}")
-  # drop-frame labels are never written: the writer refuses non-integer rates for that syntax
+  check_time_settings(ctx)
+
+
+def check_time_settings(ctx):
+  """FIN-timecfg: the (frame rate, syntax) pair that writer.from_model hands to TTElement.from_model, evaluated for every
+  combination of time_format in {unset, clock_time, frames, clock_time_with_frames} and fps in {unset, 25, 30000/1001} (and for no
+  configuration): frames syntaxes need a frame rate, HH:MM:SS:FF needs an integer one (drop-frame labels would be written
+  otherwise, which the reader rejects), an unset syntax becomes frames when a rate is given, else clock time."""
+  from fractions import Fraction as F
+  from ..consteval import FuncEval, NotConst, Raised, _CallingConstEval, EnumMember, Sym
+  ix = ctx.ix
   w = ix.func("ttconv.imsc.writer:from_model")
-  ctx.check("denominator != 1" in unparse(w.node) and "clock_time_with_frames" in unparse(w.node), "FMT-time", f"{w.qualname}|HH:MM:SS:FF only with integer frame rates",
-            ctx.where(w.module, w.node), "rejected with ValueError otherwise", "the writer no longer refuses clock_time_with_frames for non-integer frame rates (drop-frame labels would be written, which the reader rejects)")
+  ctx.unit(w.module)
+  sink = [c for c in own_nodes(w.node) if isinstance(c, ast.Call) and unparse(c.func).endswith("TTElement.from_model") and len(c.args) >= 3]
+  if len(sink) != 1:
+    raise AnalysisError("writer.from_model: the TTElement.from_model(doc, fps, time_format, ...) call was not found")
+  fps_arg, tf_arg = sink[0].args[1], sink[0].args[2]
+  cfg = w.params[1]
+  enum = ix.cls("ttconv.imsc.attributes:TimeExpressionSyntaxEnum") if "ttconv.imsc.attributes:TimeExpressionSyntaxEnum" in ix.classes else None
+  if enum is None:
+    enum = next((c for c in ix.classes.values() if c.name == "TimeExpressionSyntaxEnum"), None)
+  if enum is None:
+    raise AnalysisError("TimeExpressionSyntaxEnum not found")
+  members = {name: EnumMember(enum.qualname, name, ConstEval(ix).try_ev(enum.module, v, enum)) for name, v in ix.enum_members(enum)}
+  # the statements that produce the two arguments: top-level statements before the sink that read / write only the configuration,
+  # the two results, and module-level names
+  st_sink = sink[0]
+  while getattr(st_sink, "_parent", None) is not w.node:
+    st_sink = st_sink._parent
+  needed = {x.id for a in (fps_arg, tf_arg) for x in ast.walk(a) if isinstance(x, ast.Name)}
+  body = []
+  for st in reversed(w.node.body[:w.node.body.index(st_sink)]):
+    stores = {x.id for x in ast.walk(st) if isinstance(x, ast.Name) and isinstance(x.ctx, ast.Store)}
+    if stores & needed:
+      body.insert(0, st)
+      needed |= {x.id for x in ast.walk(st) if isinstance(x, ast.Name) and isinstance(x.ctx, ast.Load)}
+  fe = FuncEval(ix)
+  wrong, n = [], 0
+  cases = [(None, None, None)] + [("cfg", tf, fps) for tf in (None, "clock_time", "frames", "clock_time_with_frames") for fps in (None, F(25), F(30000, 1001))]
+  for (c, tf, fps) in cases:
+    env = {cfg: None} if c is None else {cfg: Sym("config"), f"{cfg}.fps": fps, f"{cfg}.time_format": members[tf] if tf else None}
+    try:
+      ce = _CallingConstEval(ix, fe, w, 0, None)
+      fe._block(ce, w, body, env)
+      got = (ce.ev(w.module, fps_arg, None, env), ce.ev(w.module, tf_arg, None, env))
+      got = (got[0], got[1].name if isinstance(got[1], EnumMember) else got[1])
+    except Raised:
+      got = "raises"
+    except NotConst as e:
+      raise AnalysisError(f"writer.from_model: the time settings leave the evaluable subset ({e})")
+    if c is None:
+      want = (None, "clock_time")
+    elif tf is None:
+      want = (fps, "frames" if fps is not None else "clock_time")
+    elif tf in ("frames", "clock_time_with_frames") and fps is None:
+      want = "raises"
+    elif tf == "clock_time_with_frames" and fps.denominator != 1:
+      want = "raises"
+    else:
+      want = (fps, tf)
+    n += 1
+    if got != want:
+      wrong.append(f"time_format={tf}, fps={fps}{'' if c else ' (no configuration)'}: {got}, expected {want}")
+  ctx.check(not wrong, "FMT-time", f"{w.qualname}|time settings for every configuration (HH:MM:SS:FF only with integer frame rates)", ctx.where(w.module, sink[0]), f"{n} configurations evaluated",
+            "; ".join(wrong[:3]) + f" ({len(wrong)} of {n} configurations): e.g. drop-frame labels would be written for clock_time_with_frames, which the reader rejects")
+  ctx.extra["finite_domain_evaluations"] = ctx.extra.get("finite_domain_evaluations", 0) + n
 
 
 def check_color_format(ctx):
@@ -343,7 +425,7 @@ def check_number_notation(ctx):
   ix = ctx.ix
   fe = FuncEval(ix)
   plain = re.compile(r"[+-]?\d*(?:\.\d+)?")
-  grid = (1e-05, 0.5, 33.3333333, 100, 1234567, 1000001)
+  grid = (1e-05, 0.5, 33.3333333, 100, 1234567, 1000001, 3000000, 120, 10.5)
   n = 0
   for mn in ("ttconv.imsc.attributes", SP):
     m = ix.mod(mn)
@@ -376,6 +458,11 @@ def check_number_notation(ctx):
         bad = [f"{v!r} -> `{t}`" for v, t in zip(grid, texts) if not (isinstance(t, str) and t and plain.fullmatch(t))]
         ctx.check(not bad, "FMT-number", f"{g.qualname}|{short(fv.value, 50)}", ctx.where(g.module, fv), f"{what}: plain decimals on the whole grid",
                   f"{what} writes {', '.join(bad[:3])}: exponent notation is not a TTML number, the reader rejects the attribute")
+        if not bad and fv.format_spec is None:
+          # a formatting helper states no precision: what it prints must read back as the number (to the 6 significant digits of `:g`)
+          off = [f"{v!r} -> `{t}`" for v, t in zip(grid, texts) if abs(float(t) - v) > 1e-5 * abs(v)]
+          ctx.check(not off, "FMT-number", f"{g.qualname}|{short(fv.value, 50)}|value", ctx.where(g.module, fv), f"{what}: the printed text reads back as the number on the whole grid",
+                    f"{what} writes {', '.join(off[:3])}: the text is a different number")
   ctx.floor("FMT-number", "number-to-text conversions in the IMSC writer", n, 10)
 
 
